@@ -68,7 +68,7 @@ package basestore
 // ---- the store protocol (C01 C05 C16 ...) -----------------------------------------------------------
 // synced(b): the view served to readers is the replay of the log's current listing
 //@ spec func synced(b Int) Bool = idxState(ptr(b, "basestore.BaseStore").index) == viewOf(valsOf(ptr(b, "basestore.BaseStore").oplog))
-//@ spec func wf(b Int) Bool = b != 0 && ptr(b, "basestore.BaseStore").oplog != nil && ptr(b, "basestore.BaseStore").index != nil && ptr(b, "basestore.BaseStore").cache != nil && ptr(b, "basestore.BaseStore").replicationStatus != nil && ptr(b, "basestore.BaseStore").tracer != nil && ptr(b, "basestore.BaseStore").logger != nil && ptr(b, "basestore.BaseStore").access != nil && ptr(b, "basestore.BaseStore").identity != nil && ptr(b, "basestore.BaseStore").options != nil && ptr(b, "basestore.BaseStore").replicator != nil
+//@ spec func wf(b Int) Bool = b != 0 && ptr(b, "basestore.BaseStore").oplog != nil && ptr(b, "basestore.BaseStore").index != nil && ptr(b, "basestore.BaseStore").cache != nil && ptr(b, "basestore.BaseStore").replicationStatus != nil && ptr(b, "basestore.BaseStore").tracer != nil && ptr(b, "basestore.BaseStore").logger != nil && ptr(b, "basestore.BaseStore").access != nil && ptr(b, "basestore.BaseStore").identity != nil && ptr(b, "basestore.BaseStore").options != nil && ptr(b, "basestore.BaseStore").replicator != nil && ptr(b, "basestore.BaseStore").address != nil
 
 //@ func (*BaseStore).updateIndex
 //@   props C01 C05 C16
